@@ -128,9 +128,51 @@ def run(ctx):
                     bad = 'destination incomplete but neither an error update was delivered nor did copy() return an error'
             if bad:
                 ctx.violation(f'{label}.json', dict(info, monitor=m, transferred=transferred), f'C12: {bad} ({driver}, {updater}, block {bsize}, plan {plan})')
+        # ---- data written into PREALLOCATED space and not yet written back (block driver, sparse-looking source): whatever the
+        # extent map says about such space, either the bytes arrive or an error is reported
+        from .. import fsutil
+        for i in range(4 if ctx.quick else 24):
+            shutil.rmtree(root + '/S', ignore_errors=True); shutil.rmtree(root + '/D', ignore_errors=True)
+            os.makedirs(root + '/S/images')
+            src = root + '/S/images/disk.img'
+            fd = os.open(src, os.O_CREAT | os.O_RDWR, 0o644); os.ftruncate(fd, 8 << 20)
+            os.posix_fallocate(fd, 2 << 20, 1 << 20); os.pwrite(fd, fsutil.lcg_bytes(1 << 20, 3 + i), 2 << 20); os.pwrite(fd, b'head' * 500, 0)
+            if i % 2: os.fsync(fd)
+            os.close(fd)
+            open(root + '/S/small', 'wb').write(b'z' * 70000)
+            updater = ['record', 'channel'][i % 2]
+            argv = ['--driver', 'parblock', '--workers', '4', '--block-size', '65536', '--updater', updater, '--', 'S', 'D']
+            r = scen.run_xcp(root, argv, timeout=120, binary=probe)
+            ups, result, closed = parse_stream(r.stdout_full if hasattr(r, 'stdout_full') else r.stdout)
+            ctx.count(f'preallocated_source.{"synced" if i % 2 else "dirty"}.{result}'); ctx.case(('preallocated-source', i, updater), True)
+            same = os.path.isfile(root + '/D/images/disk.img') and open(root + '/D/images/disk.img', 'rb').read() == open(src, 'rb').read()
+            if not same and result == 'ok' and 'e' not in ups:
+                ctx.violation(f'preallocated-{i}.json', dict(argv=argv, stream=ups[:60], result=result), f'C12: destination incomplete (disk.img differs: data written into preallocated space is missing) but no error update and copy() returned Ok (parblock, {updater})')
+        # ---- every worker dies on a failing entry while hundreds of entries are still to be walked: copy() returns, the stream ends
+        for i in range(4 if ctx.quick else 16):
+            shutil.rmtree(root + '/S', ignore_errors=True); shutil.rmtree(root + '/D', ignore_errors=True)
+            os.makedirs(root + '/S/a'); os.makedirs(root + '/S/z')
+            for k in range(40):
+                if i % 2:
+                    os.mkfifo(f'{root}/S/a/p{k}')
+                else:
+                    open(f'{root}/S/a/p{k}', 'wb').write(b'lock')
+                os.makedirs(f'{root}/D/S/a/p{k}/occupied')          # the destination name is a non-empty directory
+            for k in range(1000):
+                open(f'{root}/S/z/f{k}', 'wb').write(b'')
+            driver = ['parfile', 'parblock'][(i // 2) % 2]; updater = ['channel', 'record', 'noop', 'channel'][i % 4]
+            argv = ['--driver', driver, '--workers', '4', '--block-size', '4096', '--updater', updater, '--', 'S', 'D']
+            r = scen.run_xcp(root, argv, timeout=60, binary=probe)
+            ups, result, closed = parse_stream(r.stdout_full if hasattr(r, 'stdout_full') else r.stdout)
+            ctx.count(f'all_workers_fail.{driver}.{r.cls}.{result}'); ctx.case(('all-workers-fail', i, driver, updater), True)
+            if r.cls == 'hang' or result is None or (updater == 'channel' and not closed):
+                ctx.violation(f'all-workers-fail-{i}.json', dict(argv=argv, result=result, closed=closed, cls=r.cls, stream_len=len(ups)),
+                              f'C12: 40 failing entries then 1000 more: the copy call did not return / the update channel did not close ({driver}, {updater}, 4 workers)')
+            elif result == 'ok' and 'e' not in ups:
+                ctx.violation(f'all-workers-fail-{i}-silent.json', dict(argv=argv, result=result, stream_len=len(ups)), f'C12: 40 entries could not be copied but neither an error update nor an error return ({driver}, {updater})')
         # ---- the provided ChannelUpdater under REAL parallelism (no supervisor: its bookkeeping is a few atomic operations with no
         # system call in between, so only free-running threads can interleave there): totals exact, never above 100 %
-        for i in range(6 if ctx.quick else 40):
+        for i in range(14 if ctx.quick else 60):
             shutil.rmtree(root + '/S', ignore_errors=True); shutil.rmtree(root + '/D', ignore_errors=True)
             os.makedirs(root + '/S')
             lens = [4096 * 400, 4096 * 300, 4096 * 500, 4096 * 272]
@@ -138,7 +180,7 @@ def run(ctx):
                 with open(f'{root}/S/f{k}', 'wb') as fh: fh.write(os.urandom(ln))
             total = sum(lens)
             driver = ['parblock', 'parfile'][i % 2]
-            argv = ['--driver', driver, '--workers', '8', '--block-size', '4096', '--updater', 'channel', '--', 'S', 'D']
+            argv = ['--driver', driver, '--workers', str([8, 16, 32][i % 3]), '--block-size', '4096', '--updater', 'channel', '--', 'S', 'D']
             r = scen.run_xcp(root, argv, timeout=120, binary=probe, trace=False)
             ups, result, closed = parse_stream(r.stdout_full if hasattr(r, 'stdout_full') else r.stdout)
             m = core.ask(core.MODEL, [f"updates 4096 | {' '.join(ups)}"])[0]
